@@ -136,3 +136,41 @@ def sh(cmd, cwd=None, env=None, timeout=None, log=None):
             f.write("$ %s\n(cwd=%s, rc=%s, %.1fs)\n" % (cmd, cwd, rc, time.time() - t0))
             f.write(out)
     return rc, out
+
+
+def native_test(test, marker, note_ok, hooks=False, only=None):
+    """-> replay function (model, finding, prop) -> (reproduced?, path, note) running replay/tests/<test>.rs against /repo.
+    `marker` is the message prefix the test's assertions use (e.g. 'C09 violated')."""
+    def run(model, fnd, prop):
+        env = base_env()
+        env["CARGO_TARGET_DIR"] = os.path.join(BUILD, "replay_target_hooks" if hooks else "replay_target")
+        if hooks:
+            env["RUSTFLAGS"] = "--cfg xet_verif"
+        cmd = ["cargo", "test", "--offline", "--test", test] + (["--", only] if only else [])
+        rc, out = sh(cmd, cwd=os.path.join(VERIF, "replay"), env=env, timeout=2400,
+                     log=os.path.join(LOGS, "replay_%s_%s.log" % (test, "hooks" if hooks else "plain")))
+        path = os.path.join(VERIF, "replay", "tests", test + ".rs")
+        if "test result: FAILED" in out:
+            m = re.search(re.escape(marker) + r"[^\n]*", out)
+            if m:
+                return True, path, m.group(0)[:300]
+            m = re.search(r"panicked at [^\n]*\n[^\n]*", out)
+            return True, path, "native replay %s fails: %s" % (test, m.group(0).replace("\n", " ")[:240] if m else "test failed")
+        if re.search(r"test result: ok. [1-9]\d* passed", out):
+            return False, path, note_ok
+        return None, path, "native replay inconclusive (rc=%s)" % rc
+    return run
+
+
+def first_reproducing(*replays):
+    """chain of replay functions: the first one that reproduces wins; otherwise the last definite answer"""
+    def run(model, fnd, prop):
+        last = (None, None, "no replay ran")
+        for r in replays:
+            res = r(model, fnd, prop)
+            if res[0]:
+                return res
+            if res[0] is not None or last[0] is None:
+                last = res
+        return last
+    return run
